@@ -1252,6 +1252,32 @@ theorem trans_C03_C14_C15_Enqueue_v2 (rl op w : Bool) (t cost maxCap maxAtt att 
       simp [v2_Enqueue, validate, errTag, hadd', hsub, he] <;> repeat' split
     all_goals (first | rfl | omega | simp_all [errTag] | (exfalso; simp_all; omega))
 
+/-- v1 `Enqueue`, whole: the same, with the buffer a channel of `bufCap` places (`held` taken): in error mode a full
+buffer refuses with `BufferFullError` and changes nothing; in blocking mode the send is taken to succeed (it blocks
+while the buffer is full) -/
+theorem trans_C03_C14_C15_Enqueue_v1 (rl op w eof : Bool) (t held bufCap cost maxCap maxAtt att : Nat)
+    (h : t + cost < 4294967296) :
+    v1_Enqueue { ratelimiter := rl, buffer := held, target := t } op w cost maxCap maxAtt att eof bufCap =
+      (match validate { hasOp := op, hasWatcher := w, limited := rl, maxCap := maxCap, cost := cost,
+                        maxAttempts := maxAtt, attempt := att } with
+       | some err => ({ ratelimiter := rl, buffer := held, target := t }, errTag (some err))
+       | none => if eof = true ∧ ¬ held < bufCap then ({ ratelimiter := rl, buffer := held, target := t }, "BufferFullError")
+                 else ({ ratelimiter := rl, buffer := (held + 1 : Nat), target := ((t + cost : Nat) : Int) }, "")) := by
+  have hadd := trans_C03_C14_incTarget_add_v1 t cost h
+  have e2 : ((t + cost : Nat) : Int) = (t : Int) + (cost : Int) := by omega
+  have hsub : v1_incTarget { target := (t : Int) + (cost : Int) } (-(cost : Int)) = { target := (t : Int) } := by
+    have := trans_C03_C11_incTarget_sub_v1 (t + cost) cost (by omega) (by omega)
+    simp only [decTarget] at this
+    have e1 : (t + cost - cost : Nat) = t := by omega
+    rw [e2] at this
+    rw [this, e1]
+  have hadd' : v1_incTarget { target := (t : Int) } (cost : Int) = { target := (t : Int) + (cost : Int) } := by
+    rw [hadd, e2]
+  have eB : ((held : Int) < (bufCap : Int)) ↔ held < bufCap := by omega
+  by_cases hb : held < bufCap <;> cases eof <;> cases op <;> cases w <;> cases rl <;>
+    simp [v1_Enqueue, validate, errTag, hadd', hsub, hb, eB] <;> repeat' split
+  all_goals (first | rfl | omega | simp_all [errTag] | (exfalso; simp_all; omega))
+
 /-! ### non-vacuity: the translated functions on concrete values (also a readable trace of what they compute) -/
 
 example : v2_incTarget ⟨7⟩ 5 = ⟨12⟩ ∧ v2_incTarget ⟨7⟩ (-5) = ⟨2⟩ ∧ v2_incTarget ⟨7⟩ (-9) = ⟨0⟩ ∧ v2_incTarget ⟨7⟩ 0 = ⟨7⟩ := by decide
